@@ -1655,6 +1655,11 @@ void vf_slice_6()
 #include <fcppt/io/read_chars.hpp>
 #include <fcppt/io/stream_to_string.hpp>
 #include <fcppt/io/widen_string.hpp>
+#include <fcppt/time/gmtime.hpp>
+#include <fcppt/time/localtime.hpp>
+#include <atomic>
+#include <ctime>
+#include <thread>
 
 #include <bit>
 
@@ -1828,9 +1833,54 @@ void io_object_lifetimes()
   vf::count("calls/" + e, calls);
 }
 
+// Functions that return a value computed from their argument alone are safe to call from several threads at once (no
+// hidden shared buffer): time::localtime / time::gmtime from two threads with different arguments, every result compared
+// with the re-entrant C function for the same argument.
+void time_from_two_threads()
+{
+  std::string const e = "time::localtime,gmtime(two-threads)";
+  if (!vf::entry_enabled(e) || !vf::mine(vf::hash_str(e)))
+    return;
+  vf::set_entry(e);
+  if (!vf::begin_case("two threads, 20000 calls each, arguments 1234567890+k*86400*37 and 86400*365*k"))
+    return;
+  vf::note_distinct(vf::hash_str(e));
+  std::atomic<unsigned> mismatches{0}, calls{0};
+  auto const worker = [&](std::time_t base, std::time_t step) {
+    for (int k = 0; k < 20000; ++k)
+    {
+      std::time_t const t = base + step * (k % 400);
+      std::tm want{};
+      ::localtime_r(&t, &want);
+      std::tm const got = fcppt::time::localtime(t);
+      if (got.tm_year != want.tm_year || got.tm_mon != want.tm_mon || got.tm_mday != want.tm_mday || got.tm_hour != want.tm_hour || got.tm_min != want.tm_min ||
+          got.tm_sec != want.tm_sec)
+        ++mismatches;
+      std::tm wantg{};
+      ::gmtime_r(&t, &wantg);
+      std::tm const gotg = fcppt::time::gmtime(t);
+      if (gotg.tm_year != wantg.tm_year || gotg.tm_mon != wantg.tm_mon || gotg.tm_mday != wantg.tm_mday || gotg.tm_hour != wantg.tm_hour || gotg.tm_sec != wantg.tm_sec)
+        ++mismatches;
+      calls += 2;
+    }
+  };
+  guard(wl_none, [&] {
+    std::thread a(worker, std::time_t{1234567890}, std::time_t{86400 * 37});
+    std::thread b(worker, std::time_t{86400}, std::time_t{86400 * 365});
+    a.join();
+    b.join();
+  });
+  vf::count("calls/" + e, calls.load());
+  VF_COUNT("bucket/time-functions-from-two-threads");
+  if (mismatches.load() != 0)
+    vf::violation("time::localtime,gmtime/result-of-another-thread", "mismatch",
+                  std::to_string(mismatches.load()) + " of " + std::to_string(calls.load()) + " concurrent calls returned the broken-down time of another argument");
+}
+
 void io_all()
 {
   io_object_lifetimes();
+  time_from_two_threads();
   std::vector<std::string> const texts{"", "7", "12345 678", "-42 x", "3.25e2", "hello world", " \t\n", std::string("\0\1\2\3\4\5\6\7\x08\x09", 10),
                                        "99999999999999999999 1", "\xff\xfe\xfd\xfc"};
   std::vector<std::wstring> wtexts;
